@@ -1,5 +1,6 @@
 (* C23 — printing of model outcomes and table-driven oracles for the correspondence harness. *)
 From TxV Require Import Core.Base Core.Show Model.FrontDefs Model.Front.
+From TxV Require Model.Kinds.
 Open Scope string_scope.
 
 Definition show_class (c : txclass) : string :=
@@ -45,3 +46,21 @@ Definition show_case (c : cfg) (o : oracles) (user : list (list N)) (fuel : nat)
   | GParseRaises _ => ""
   | GTree t => sjoin "," (map show_outcome (filter (fun x => match x with Ok => false | _ => true end) (cls_errors c o t)))
   end.
+
+(* the rule kinds C03's fixpoint computes on to_kinds, for the classes of the namespace in order (compared with
+   cls._tx_type of the implementation on every accepted grammar) *)
+Definition show_kind (k : Kinds.kind) : string :=
+  match k with Kinds.KMatch => "m" | Kinds.KAbstract => "a" | Kinds.KCommon => "c" end.
+
+Definition show_kinds (c : cfg) (g : ginput) : string :=
+  match g with
+  | GParseRaises _ => ""
+  | GTree t =>
+      match Kinds.determine_types (to_kinds c t) with
+      | Some s => sjoin "" (map (fun x => show_kind (Kinds.types s x)) (seq 0 (List.length (effective (t_rules t)))))
+      | None => "OOF"
+      end
+  end.
+
+Definition show_case_kinds (c : cfg) (o : oracles) (user : list (list N)) (fuel : nat) (g : ginput) : string :=
+  show_case c o user fuel g ++ "|" ++ match front c o user fuel g with Ok => show_kinds c g | _ => "" end.
